@@ -361,7 +361,8 @@ def build_run_wn(wntr, sc):
                     initial_status="CLOSED" if sc["init"][j] == CLOSED else "OPEN")
     LS = wntr.network.LinkStatus
     for c, (j, t, v) in enumerate(sc["ctrls"]):
-        act = ControlAction(wn.get_link("L%d" % j), "status", LS(v))
+        # the INP reader stores plain ints in control actions (LINK x CLOSED AT TIME t -> value 0): both forms must behave alike
+        act = ControlAction(wn.get_link("L%d" % j), "status", int(v) if sc.get("intvals") else LS(v))
         wn.add_control("c%d" % c, Control(SimTimeCondition(wn, "=", t * 3600), act))
     wn.options.time.duration = sc["steps"] * 3600
     wn.options.time.hydraulic_timestep = 3600
@@ -379,7 +380,24 @@ def run_oracle(wntr, sc):
     sim = wntr.sim.WNTRSimulator(wn)
     kw = {"HW_approx": "piecewise"} if sc.get("piecewise") else {}
     try:
-        res = sim.run_sim(**kw)
+        if sc.get("pause"):
+            # pause after `pause` hours and continue with a NEW simulator object (the connectivity graph is rebuilt from the
+            # statuses the first leg left behind); the concatenated results are judged like an uninterrupted run
+            import pandas as pd
+
+            class _Cat:
+                pass
+
+            wn.options.time.duration = sc["pause"] * 3600
+            r1 = sim.run_sim(**kw)
+            wn.options.time.duration = sc["steps"] * 3600
+            r2 = wntr.sim.WNTRSimulator(wn).run_sim(**kw)
+            res = _Cat()
+            res.error_code = r1.error_code if r1.error_code is not None else r2.error_code
+            res.node = {k: pd.concat([r1.node[k], r2.node[k]]) for k in ("pressure", "demand", "head")}
+            res.link = {k: pd.concat([r1.link[k], r2.link[k]]) for k in ("status", "flowrate")}
+        else:
+            res = sim.run_sim(**kw)
         if sc.get("rerun"):
             # the SAME simulator object used again after a reset: it must not keep anything from the first run
             wn.reset_initial_values()
@@ -699,6 +717,9 @@ class C09(Check):
                 extra.append(dict(sc, rerun=True))
             if i % 8 == 2:
                 extra.append(dict(sc, rerun=True, piecewise=True))
+            if i % 3 == 0 and sc["steps"] >= 3:
+                # paused and continued while (possibly) something is cut off; int-valued actions as read from an INP file
+                extra.append(dict(sc, pause=1 + (i // 3) % (sc["steps"] - 1), intvals=(i % 2 == 0)))
         runs += extra
         return csr, nets, runs
 
